@@ -85,7 +85,10 @@ Inductive revr :=
 Inductive presp :=
 | PRErr
 | PRNil                                     (* (nil, nil): breaks the plugin.VerifyPlugin contract *)
-| PResp (all_processed : bool) (ti rev : option bool).
+| PResp (all_processed : bool)      (* every CRITICAL extended attribute with a string key other than the two
+                                       plugin headers is listed in processedAttributes (non-critical ones need
+                                       not be, fix 6f898df; attributes with other key types are never looked up) *)
+        (ti rev : option bool).
 
 Record scenario := mk_sc {
   s_sig : sigc;
@@ -636,6 +639,7 @@ Definition spec_ok (i : input) (o : obs) : bool :=
   | OConstruct => true
   | ORet flag lvl outs err =>
       forallb um_no_panic outs &&
+      forallb is_some outs &&          (* never a nil outcome pointer among the outcomes handed back *)
       match i_entry i with
       | EVerify | EVerifyBlob =>
           match err with
